@@ -15,24 +15,27 @@ R.time = FakeTime
 R.gc = FakeGC
 LAST = None
 KINDS = [W.PASS, W.FAIL, W.ERROR, W.ERR_TD, W.SUBFAIL2, W.SETUP_ERR, W.TD_ERR, W.CLEANUP_ERR, W.SYSEXIT, W.SUB_ERR,
-         W.XPASS, W.SKIP_BODY, W.XFAIL]
+         W.XPASS, W.SKIP_BODY, W.XFAIL, W.SWAP_ERR, W.SUBPASS_FAIL]
 NK = len(KINDS)
 
 
-def contained(topo, ka0, ka1, kb0, exc, su_a, su_b, td_a, td_b, buf, v):
+def contained(topo, ka0, ka1, kb0, exc, su_a, su_b, td_a, td_b, buf, v, color):
     global LAST
     W.reset()
     topo = ci(topo, 0, 1)
     ks = [pick(KINDS, k) for k in (ka0, ka1, kb0)]
-    exc = ci(exc, 0, 3)
-    su_a, su_b, td_a, td_b, buf = map(cb, (su_a, su_b, td_a, td_b, buf))
+    exc = ci(exc, 0, 5)
+    su_a, su_b, td_a, td_b, buf, color = map(cb, (su_a, su_b, td_a, td_b, buf, color))
     v = ci(v, 0, 3)
     with untraced():
         A = W.mk_layer('A', (), su=int(su_a), td=int(td_a), hooks='st')
         B = W.mk_layer('B', (A,) if topo else (), su=int(su_b), td=int(td_b), hooks='st')
         ta = [W.mk_test('a0', ks[0], exc=exc), W.mk_test('a1', ks[1], exc=exc)]
         tb = [W.mk_test('b0', ks[2], exc=exc)]
-    o = RW.options((['-' + 'v' * v] if v else []) + (['--buffer'] if buf else []), out_cls=RW.RecFormatter)
+    o = RW.options((['-' + 'v' * v] if v else []) + (['--buffer'] if buf else []) + (['-c'] if color else []),
+                   out_cls=RW.RecColorFormatter if color else RW.RecFormatter)
+    if color:
+        o.output.slow_test_threshold = 10.0
     r = RW.make_runner(o, [(B, tb), (A, ta)])
     escaped = None
     with RW.Captured() as cap:
@@ -43,7 +46,7 @@ def contained(topo, ka0, ka1, kb0, exc, su_a, su_b, td_a, td_b, buf, v):
                 escaped = type(e).__name__
     with untraced():
         why = oracle(W.TRACE, r, topo, ks, su_a, su_b, td_a, td_b, escaped, cap.text())
-    LAST = (topo, tuple(ks), exc, su_a, su_b, td_a, td_b, buf, v, why)
+    LAST = (topo, tuple(ks), exc, su_a, su_b, td_a, td_b, buf, v, why, color)
     return why is None
 
 
@@ -103,15 +106,15 @@ def contained_reach(*a):
 
 
 _P = [('topo', 'int'), ('ka0', 'int'), ('ka1', 'int'), ('kb0', 'int'), ('exc', 'int'), ('su_a', 'bool'), ('su_b', 'bool'),
-      ('td_a', 'bool'), ('td_b', 'bool'), ('buf', 'bool'), ('v', 'int')]
+      ('td_a', 'bool'), ('td_b', 'bool'), ('buf', 'bool'), ('v', 'int'), ('color', 'bool')]
 _C = ', '.join(n for n, _ in _P)
-_B = ('0 <= topo <= 1 and 0 <= ka0 < %d and 0 <= ka1 < %d and 0 <= kb0 < %d and 0 <= exc <= 3 and 0 <= v <= 3' % (NK, NK, NK))
+_B = ('0 <= topo <= 1 and 0 <= ka0 < %d and 0 <= ka1 < %d and 0 <= kb0 < %d and 0 <= exc <= 5 and 0 <= v <= 3' % (NK, NK, NK))
 _ONE = ' and (ka0 != 0) + (ka1 != 0) + (kb0 != 0) + su_a + su_b + td_a + td_b <= 1'
 _TWO = ' and (ka0 != 0) + (ka1 != 0) + (kb0 != 0) + su_a + su_b + td_a + td_b <= 2'
 
 
 def _v(**kw):
-    v = dict(topo=1, ka0=3, ka1=0, kb0=0, exc=0, su_a=False, su_b=False, td_a=False, td_b=False, buf=True, v=1)
+    v = dict(topo=1, ka0=3, ka1=0, kb0=0, exc=0, su_a=False, su_b=False, td_a=False, td_b=False, buf=True, v=1, color=False)
     v.update(kw)
     return v
 
@@ -123,17 +126,17 @@ SPEC = {
                 'test_failure/print_traceback/format_traceback/print_std_streams/error/summary', 'unittest.TestCase.run (stdlib, traced)'],
     'files': ['src/zope/testrunner/runner.py', 'src/zope/testrunner/formatter.py'],
     'stubs': ['runner.time, runner.gc', 'sys.stdout/sys.stderr -> TextIOWrapper objects over one byte buffer'],
-    'assumptions': ['exception classes: ValueError, KeyError, an AssertionError subclass, a custom Exception subclass; SystemExit inside tests'],
+    'assumptions': ['exception classes: ValueError, KeyError, an AssertionError subclass, a custom Exception subclass, a real SyntaxError (location line without ", in"), an exception whose __str__ raises; SystemExit inside tests'],
     'outside': ['MemoryError / KeyboardInterrupt (deliberately propagated by the runner)', '-D/--pdb', 'children (covered by C02/C07 worlds)',
                 'more than 3 tests in 2 layers'],
     'harnesses': [
         {'name': 'contained', 'fn': 'contained', 'params': _P, 'call': _C,
-         'bounds': {'quick': _B + _ONE + ' and (v == 1 or exc == 0)', 'thorough': _B + _TWO + ' and (v == 1 or exc == 0)'},
-         'slices': {'quick': ['topo == %d and %s and v == %d' % (t, b, v) for t in (0, 1) for b in ('buf', 'not buf') for v in range(4)],
+         'bounds': {'quick': _B + _ONE + ' and (v == 1 or exc == 0) and (not color or (v == 1 and (exc == 0 or exc == 4)))', 'thorough': _B + _TWO + ' and (v == 1 or exc == 0)'},
+         'slices': {'quick': ['topo == %d and %s and v == %d and %s' % (t, b, v, c) for t in (0, 1) for b in ('buf', 'not buf') for v in range(4) for c in ('color', 'not color') if c == 'not color' or v == 1],
                     'thorough': ['topo == %d and %s and v == %d and ka0 == %d' % (t, b, v, k) for t in (0, 1) for b in ('buf', 'not buf') for v in range(4) for k in range(NK)]},
          'reach': 'contained_reach', 'reach_bounds': {'quick': _B + _ONE + ' and v == 1 and exc == 0 and topo == 1',
                                                       'thorough': _B + _ONE + ' and v == 1 and exc == 0 and topo == 1'},
          'timeout': {'quick': 240, 'thorough': 850},
-         'fidelity': [_v(), _v(ka0=4, v=3), _v(topo=0, ka0=0, su_a=True, kb0=8, buf=False, v=0)]},
+         'fidelity': [_v(), _v(ka0=4, v=3), _v(topo=0, ka0=0, su_a=True, kb0=8, buf=False, v=0), _v(ka0=2, exc=4, color=True), _v(ka1=13, exc=5)]},
     ],
 }
